@@ -783,3 +783,11 @@ def run(P, rep, tier):
     c01.r015(cg, sub, 'fp')
     reissue(rep, 'R06.9', sub, 'a caller\'s rounding mode would be changed by the call: ', keep=lambda o: ':cast:ldouble->' in o['key'])
     r_callee_saved(P, rep)
+    # C11 6.5.2.2p7 / psABI: the callee reads a parameter in the representation of the PARAMETER type, so the caller must have converted the
+    # argument (a char passed for a _Bool must arrive as 0/1, a float passed to `...` as a double): lib_exprparse's funcall rules, re-used
+    from ..lib_exprparse import r_conversion_sites
+    rep.rule('R06.10', 'every argument is converted to the type of its parameter before it is passed (also between integer types of one size, e.g. char -> _Bool), variadic float arguments are promoted to double (same obligations as C01 R01.4 for funcall)', floor=6)
+    sub = Report('C01')
+    sub.rule('R01.4', '', 1)
+    r_conversion_sites(P, sub, 'R01.4')
+    reissue(rep, 'R06.10', sub, 'the callee would read the argument in another representation than the caller passes: ', keep=lambda o: ':funcall:' in o['key'])
